@@ -436,6 +436,35 @@ Definition ck_decide (m : mode) (hg g pre wn : nat) (rb : bool) : ckdec :=
        | _ => if negb rb && (wn <=? pre) then DRecopy else DBoundary
        end.
 
+(** the copy after a FULL/RESTART checkpoint of /repo commit 20b75a5: its verify runs on a sync
+    state with reachedWALEnd and syncedToWALEnd cleared ... *)
+Definition strict_ss (s : state) : state :=
+  set_ss s (mkSess false (lastoff s) (openmark s) (snap s) false).
+(** ... and reachedWALEnd is restored afterwards *)
+Definition merge_reached (s : state) (r : bool) : state :=
+  set_ss s (mkSess (flag s) (lastoff s) (openmark s) (snap s) (reached s || r)).
+
+(** control states in which the read lock has been released by this call (the deferred
+    function of commit a1345df is installed right before execCheckpoint) *)
+Definition fail_clears (p : pcT) : bool :=
+  match p with
+  | PReleased _ _ _ | PCkpted _ _ _ _ | PMid _ _ _ _ _ | PPost _ _ _ _ | PUnlocked _ _ _ _ _
+  | PBumped _ _ _ _ _ | PRecopy | PBoundary | PBoundLocked => true
+  | _ => false
+  end.
+Definition in_call (p : pcT) : bool := match p with Idle | Closed => false | _ => true end.
+
+(** an error exit: write lock released (deferred rollbacks), read lock re-taken if it was
+    released (execCheckpoint's deferred acquireReadLock), control back to the caller; with
+    [clear] the sync state is that of a session that has not reached the end of the WAL
+    ([s_openmark] is a ghost: the read mark now held protects no known cursor) *)
+Definition fail_st (s : state) (clear : bool) : state :=
+  let s1 := set_wlock (set_pc s Idle) false in
+  let s2 := match ls_mark s with None => set_mark s1 (acquire s) | Some _ => s1 end in
+  if clear && fail_clears (pc s)
+  then set_ss s2 (mkSess false (lastoff s) true (snap s) false)
+  else s2.
+
 (** * Steps *)
 
 Inductive label :=
@@ -463,8 +492,20 @@ Inductive label :=
                                 [chk = true]: 482a715 + a637c7e, the read fails when the WAL it opens,
                                 or the WAL at the end of the read, is not the generation the bound was
                                 measured in; [chk = false]: before those commits *)
-| LsBumpFail.                (* the one error exit modelled: bumpLitestreamSeq fails (SQLITE_BUSY), the
+| LsBumpFail                 (* the one error exit modelled: bumpLitestreamSeq fails (SQLITE_BUSY), the
                                 checkpoint call returns, the executor's state is applied as it is *)
+| LsPostSync (k : nat)       (* the copy that follows a FULL/RESTART checkpoint as /repo commit 20b75a5 runs
+                                it: with reachedWALEnd and syncedToWALEnd cleared for its verify (a WAL other
+                                than the one synced so far is snapshotted, not followed), reachedWALEnd
+                                restored afterwards.  [LsSync] in the same control state is that copy before
+                                the commit *)
+| LsFail (clear : bool).     (* ANY error exit of checkpointWithExecutor (SQLITE_BUSY at the barrier, the bump
+                                or the boundary lock, a cancelled context, an I/O error): the deferred
+                                rollbacks release the write lock, execCheckpoint's deferred acquireReadLock
+                                re-takes the read lock if it was released, the executor's state is applied
+                                as it is.  [clear = true]: /repo commit a1345df, a call that fails after the
+                                read lock was released clears syncedToWALEnd and reachedWALEnd;
+                                [clear = false]: before that commit *)
 
 Definition step (s : state) (l : label) : option state :=
   match l with
@@ -621,6 +662,16 @@ Definition step (s : state) (l : label) : option state :=
       | PUnlocked _ _ _ _ _ => Some (set_pc s Idle)
       | _ => None
       end
+  | LsPostSync k =>
+      match pc s with
+      | PMid m hg pre wn rb =>
+          if needs_post m rb
+          then option_map (fun s' => set_pc (merge_reached s' (reached s)) (PPost m hg pre wn))
+                          (do_sync (strict_ss s) k)
+          else None
+      | _ => None
+      end
+  | LsFail c => if in_call (pc s) && opened s then Some (fail_st s c) else None
   end.
 
 (** snapshot_matches_position needs three facts the code does not establish by
@@ -686,7 +737,19 @@ Definition window_ok (s : state) (l : label) : bool :=
   | AppCommit _ true | AppTruncate =>
       (recheck || negb (post_pending (pc s))) && (reachrule || negb (catching_up s))
   | LsKill => kill_ok s
-  | LsBumpFail => false     (* error exits are outside the C01 / C04 theorems *)
+  | LsBumpFail => false     (* error exits are outside the C01 / C04 theorems of Db/MachineProofs.v ... *)
+  | LsFail _ => false       (* ... and inside those of Db/MachineFaults.v *)
+  | _ => true
+  end.
+
+(** /repo HEAD (commits a1345df and 20b75a5 included): the copy after a FULL/RESTART
+    checkpoint is [LsPostSync], error exits are [LsFail true].  No other side condition:
+    kill anywhere, any error exit, any interleaving. *)
+Definition head_label (s : state) (l : label) : bool :=
+  match l with
+  | LsSync _ => negb (post_pending (pc s))
+  | LsBumpFail => false
+  | LsFail c => c
   | _ => true
   end.
 
@@ -706,6 +769,12 @@ Fixpoint steps_window (s : state) (ls : list label) : Prop :=
   match ls with
   | [] => True
   | l :: r => window_ok s l = true /\ match step s l with Some s' => steps_window s' r | None => True end
+  end.
+
+Fixpoint steps_head (s : state) (ls : list label) : Prop :=
+  match ls with
+  | [] => True
+  | l :: r => head_label s l = true /\ match step s l with Some s' => steps_head s' r | None => True end
   end.
 
 Fixpoint steps_snap (s : state) (ls : list label) : Prop :=
